@@ -183,6 +183,7 @@ def apply_quirks(L, quirks):
       swap    the terminal reports its pixel dimensions swapped and the application has enabled the library's
               workaround (enable_win_size_swap()) - cell size and everything derived from it are what they are
               on a well-behaved terminal;
+      xt14    the pixel size is only available through the XTWINOPS text-area query (no ioctl pixels, no cell-size reply);
       stdout  standard output is not the terminal (a pipe / file): only the tty's own descriptor knows the terminal
               size, the shutil fallback would report *stdout* = (cols, rows) - the active terminal's size counts."""
     if not quirks:
@@ -194,6 +195,15 @@ def apply_quirks(L, quirks):
         L.ti.enable_win_size_swap()
     if quirks.get("stdout"):
         tty.stdout_size = tuple(quirks["stdout"])
+    if quirks.get("xt14"):
+        # no pixel size from the TIOCGWINSZ ioctl; the terminal answers XTWINOPS `CSI 14 t` (text area in pixels,
+        # reported as height;width) but not `CSI 16 t` (cell size)
+        cw, ch = tty.xpx // tty.cols, tty.ypx // tty.rows
+        tty.xpx = tty.ypx = 0
+        tty.responder.text_area_px = (tty.rows * ch, tty.cols * cw)
+        tty.responder.cell_px = None
+        tty.xt14 = True
+        L.utils._cell_size_cache[:] = [0] * 4
 
 
 def set_env(L, term, cell, clear_cell_memo=False):
@@ -203,6 +213,9 @@ def set_env(L, term, cell, clear_cell_memo=False):
     tty.xpx, tty.ypx = (term[0] * cell[0], term[1] * cell[1]) if cell else (0, 0)
     if getattr(tty, "swapped_px", False):
         tty.xpx, tty.ypx = tty.ypx, tty.xpx
+    if getattr(tty, "xt14", False):
+        tty.xpx = tty.ypx = 0
+        tty.responder.text_area_px = (term[1] * cell[1], term[0] * cell[0])
     if clear_cell_memo:
         # the cell-size memo is keyed by the terminal size only; its staleness is C15's subject
         L.utils._cell_size_cache[:] = [0] * 4
@@ -433,6 +446,9 @@ class HistProgram:
                 ops.append(("iter_env", j))
             for r in ratios:
                 ops.append(("iter_ratio", r))
+        if quirks and quirks.get("xt14"):
+            for j in range(len(self.envs)):
+                ops.append(("env_queries_off", j))
         self.ops = ops
         self.set_frames = [tuple(f) for f in set_frames]
 
@@ -565,6 +581,16 @@ def _hist_apply(L, prog, st, op, check):
     before = img.size
     if kind in ("iter_env", "iter_ratio"):
         return hist_iterator(L, prog, st, op, check)
+    if kind == "env_queries_off":
+        # the resize happens, and a size is computed, while terminal queries are disabled (the cell size cannot be
+        # determined then); queries are re-enabled afterwards: from then on sizes are those for the real cell size
+        L.ti.disable_queries()
+        try:
+            bad0 = _hist_apply(L, prog, st, ("env", op[1]), False)
+            img.rendered_size
+        finally:
+            L.ti.enable_queries()
+        return bad0 + _hist_apply(L, prog, st, ("env", op[1]), check)
     if kind in ("env", "ratio", "render", "render_fail"):
         if kind == "env":
             j = op[1]
@@ -913,6 +939,11 @@ def params(tier):
                 items.append(("grid", ("graphics", term, cell, 0.5, c, swap)))
                 items.append(("grid", ("text", term, cell, "DYNAMIC", c, swap)))
     for term in q_terms[:2] if quick else q_terms:
+        for cell in q_cells:
+            for c in q_chunks[:1] if quick else q_chunks:
+                items.append(("grid", ("graphics", term, cell, 0.5, c, dict(xt14=True))))
+                items.append(("grid", ("text", term, cell, "DYNAMIC", c, dict(xt14=True))))
+    for term in q_terms[:2] if quick else q_terms:
         for so in q_stdout:
             if tuple(so) == tuple(term):
                 continue
@@ -923,7 +954,9 @@ def params(tier):
                   auto_cell_ratio_cells=dyn_cells, frames=frames, given_dimensions=ks, manual=manuals,
                   unusual_environments=dict(terminals=q_terms, cells=q_cells, stdout_sizes=q_stdout,
                                             kinds=["swapped pixel report + enable_win_size_swap()",
-                                                   "stdout is not the terminal"], sources="every other chunk"),
+                                                   "stdout is not the terminal",
+                                                   "pixel size only through XTWINOPS CSI 14 t"],
+                                            sources="every other chunk"),
                   apis=["set_size", "set_size(height=enum)", "size=enum (dynamic) -> rendered_size", "width=/height=/size=",
                         "constructor"])
     # ---- history programs
@@ -952,6 +985,10 @@ def params(tier):
                     ratios=([0.5, "DYNAMIC", "FIXED"] if fam == "text" else [1.0]))
         hist.append(spec)
         items.append(("hist", spec))
+    # pixel size only through terminal queries (XTWINOPS 14t), with resizes that happen while queries are disabled
+    spec = dict(hist[0], family="graphics", src=[7, 5], quirks=dict(xt14=True), ratios=[1.0])
+    hist.append(spec)
+    items.append(("hist", spec))
     bounds["history"] = dict(programs=[make_prog(s).describe() for s in hist], unmerged_depth=unmerged_depth,
                              ops=[list(o) for o in make_prog(hist[0]).ops])
     # ---- urwid
